@@ -39,7 +39,7 @@ func TestCheck(t *testing.T) {
 		}
 	}()
 	ctx := context.Background()
-	n := int64(cfg.Pick(100, 400))
+	n := int64(cfg.Pick(300, 400))
 	rep.Cases(n, func(idx int64, rng *mon.Rand) {
 		if idx%6 == 5 {
 			chainCase(ctx, rep, rng, cfg)
